@@ -31,6 +31,7 @@ func runC08(c *Ctx) {
 	c08R2(c, p)
 	c08R3(c, p)
 	boardCopyRule(c, p, "C08.R4")
+	c08R5(c, p)
 }
 
 // allowed nondeterminism sites inside the closure of Search.Go: function -> kinds
@@ -393,6 +394,12 @@ func isDepthTyped(v ssa.Value) bool {
 
 func init() {
 	addMutants(
+		Mutant{Name: "C08.R5-soft-time-compared-when-unset", Prop: "C08", File: "search/state.go", Quick: true,
+			Old: "(o.SoftTime > 0 && elapsed > o.SoftTime)", New: "(elapsed > o.SoftTime)",
+			Expect: "C08.R5/softAbort#disabled-limit-inert:SoftTime"},
+		Mutant{Name: "C08.R5-soft-nodes-compared-when-unset", Prop: "C08", File: "search/state.go",
+			Old: "(o.SoftNodes > 0 && nodes > o.SoftNodes)", New: "(nodes > o.SoftNodes)",
+			Expect: "C08.R5/softAbort#disabled-limit-inert:SoftNodes"},
 		Mutant{Name: "C08.R1-time-dependent-reduction", Prop: "C08", File: "search/search.go", Quick: true,
 			Old: "\t\tsinceStart := time.Since(start).Milliseconds()\n", New: "\t\tsinceStart := time.Since(start).Milliseconds()\n\t\tif sinceStart > 5000 {\n\t\t\tfactor = 4\n\t\t}\n",
 			File2: "search/search.go", Old2: "\t\tawOk := false // aspiration window succeeded\n\t\tfactor := Score(1)\n", New2: "\t\tawOk := false // aspiration window succeeded\n\t\tfactor := Score(1)\n\t\t_ = factor\n",
@@ -419,4 +426,124 @@ func init() {
 			Old: "\t} else if opts.PonderHit == nil {\n\t\ts.aborted = true\n\t}\n", New: "\t} else if opts.PonderHit == nil {\n\t\ts.aborted = true\n\t}\n\tif opts.SoftNodes > 0 && opts.Counters.Nodes > 2*opts.SoftNodes {\n\t\ts.aborted = true\n\t}\n",
 			Expect: "C08.R3/readers:search.Options.SoftNodes"},
 	)
+}
+
+// c08R5: a soft limit that is not set (<= 0, the documented "no limit") must not be able to end
+// the search. softAbort may answer true only through a limit whose own "enabled" test
+// (limit > 0) holds: in particular a search given node or depth limits and no soft time must never
+// consult the wall clock, or its result depends on machine speed.
+func c08R5(c *Ctx, p *Prog) {
+	const rule = "C08.R5"
+	fn := p.Func("search.(*Options).softAbort")
+	if fn == nil {
+		c.Anchor(rule, "search.(*Options).softAbort")
+		return
+	}
+	if len(fn.Params) < 3 {
+		c.Undec(rule, "softAbort#params", fn.Pos(), "expected (o, elapsed, nodes)")
+		return
+	}
+	fieldOf := func(v ssa.Value) string {
+		l, ok := stripConv(v).(*ssa.UnOp)
+		if !ok || l.Op != token.MUL {
+			return ""
+		}
+		fr, ok := asFieldAddr(l.X)
+		if !ok {
+			return ""
+		}
+		return fr.Field.Name()
+	}
+	paramIx := func(v ssa.Value) int {
+		v = stripConv(v)
+		for i, q := range fn.Params {
+			if v == ssa.Value(q) {
+				return i
+			}
+		}
+		return -1
+	}
+	limits := map[string]int{"SoftTime": 1, "SoftNodes": 2} // limit field -> index of the measured parameter
+	classify := func(v ssa.Value) (string, bool, bool) {
+		bo, ok := v.(*ssa.BinOp)
+		if !ok {
+			return "", false, false
+		}
+		x, y, op := bo.X, bo.Y, bo.Op
+		// enabled test: limit > 0
+		for i := 0; i < 2; i++ {
+			if f := fieldOf(x); limits[f] != 0 {
+				if k, isc := constOf(y); isc {
+					switch {
+					case (op == token.GTR && k == 0) || (op == token.GEQ && k == 1):
+						return "enabled:" + f, false, true
+					case (op == token.LEQ && k == 0) || (op == token.LSS && k == 1):
+						return "enabled:" + f, true, true
+					}
+				}
+				if paramIx(y) == limits[f] {
+					return "over:" + f, false, true // polarity does not matter for this rule
+				}
+			}
+			x, y, op = y, x, swapCmp(op)
+		}
+		return "", false, false
+	}
+	for lim := range limits {
+		other := "SoftNodes"
+		if lim == "SoftNodes" {
+			other = "SoftTime"
+		}
+		// can the function answer true while `lim` is disabled and the other limit is not exceeded?
+		bad, badPos := false, fn.Pos()
+		sm := &simulator{fn: fn, classify: classify, maxVisit: 1}
+		sm.atExit = func(ret *ssa.Return, asg map[string]bool) {
+			if en, ok := asg["enabled:"+lim]; ok && en {
+				return
+			}
+			if ov, ok := asg["over:"+other]; ok && ov {
+				if en, ok := asg["enabled:"+other]; !ok || en {
+					return // legitimately true through the other limit
+				}
+			}
+			// was this path decided by the measured value of the disabled limit?
+			if _, used := asg["over:"+lim]; !used {
+				return
+			}
+			if len(ret.Results) != 1 {
+				return
+			}
+			val, known := true, false
+			switch r := ret.Results[0].(type) {
+			case *ssa.Const:
+				k, _ := constOf(r)
+				val, known = k != 0, true
+			case *ssa.Phi:
+				if b, ok := asg["φ"+r.Name()]; ok {
+					val, known = b, true
+				}
+			default:
+				if name, neg, ok := classify(r); ok {
+					if b, ok := asg[name]; ok {
+						val, known = b != neg, true
+					}
+				}
+			}
+			if !known || val {
+				if _, tested := asg["enabled:"+lim]; !tested || !asg["enabled:"+lim] {
+					bad, badPos = true, ret.Pos()
+				}
+			}
+		}
+		sm.run()
+		key := "softAbort#disabled-limit-inert:" + lim
+		switch {
+		case sm.aborted:
+			c.Undec(rule, key, fn.Pos(), "path simulation exceeded its budget")
+		case bad:
+			c.Fail(rule, key, badPos, "softAbort can answer true from comparing against %s on a path where %s > 0 does not hold: a search that sets no such limit (documented: <= 0 means none) is ended by it — for the time limit that makes node/depth-limited searches depend on the wall clock", lim, lim)
+		default:
+			c.Ok(rule, key, fn.Pos(), "%s can end the search only where %s > 0 holds", lim, lim)
+		}
+	}
 }
